@@ -373,4 +373,63 @@ theorem steps_reverse (L : JLaws F) (cfg : Cfg F) (s : Scheme F) (hp : Palin s) 
       rw [steps_succ_right, ih st1 st' h, Option.bind_some]
       exact step_reverse L cfg s hp dt st st1 h1
 
+/-! ### palindromes from the index function alone -/
+
+/-- the scheme a table denotes, its constants read through an arbitrary `f` -/
+def schemeOf {F α : Type} (f : α → F) (order stages : Nat) (gamma : List α) : Scheme F :=
+  ⟨order, stages, gamma.map f⟩
+
+
+/-- the finite fact decided per table: `gg` stays inside `gamma[len]` and its index is mirror
+    symmetric on the stages -/
+def IndexPalin (stages len : Nat) : Prop :=
+  1 ≤ stages ∧ ∀ i, i < stages →
+    ggIndex stages i < len ∧ ggIndex stages (stages - 1 - i) = ggIndex stages i
+
+instance (stages len : Nat) : Decidable (IndexPalin stages len) := by
+  unfold IndexPalin; exact inferInstance
+
+theorem palin_of_index (s : Scheme F) (h : IndexPalin s.stages s.gamma.length) : Palin s where
+  stages_pos := h.1
+  defined := by
+    intro i hi
+    have hb := (h.2 i hi).1
+    exact ⟨s.gamma[ggIndex s.stages i], by simp [gg, hb]⟩
+  mirror := by
+    intro i hi
+    simp only [gg, (h.2 i hi).2]
+
+/-! ### a concrete instance of the laws: three-decimal fixed point numbers as "doubles",
+    every operation rounding toward zero -/
+
+@[instance_reducible] def intJFloat : JFloat Int where
+  add := (· + ·)
+  mul a b := (a * b).tdiv 1000
+  div a b := (a * 1000).tdiv b
+  neg := (- ·)
+  two := 2000
+  ofInt i := i.toInt * 1000
+  truncToInt a := if (a.tdiv 1000).natAbs < 2 ^ 63 then some (BitVec.ofInt 64 (a.tdiv 1000)) else none
+
+theorem intLaws : @JLaws Int intJFloat :=
+  @JLaws.mk Int intJFloat
+    (fun a b => by
+      show ((-a) * b).tdiv 1000 = -((a * b).tdiv 1000)
+      rw [Int.neg_mul, Int.neg_tdiv])
+    (fun a b => by
+      show (a * (-b)).tdiv 1000 = -((a * b).tdiv 1000)
+      rw [Int.mul_neg, Int.neg_tdiv])
+    (fun a b => by
+      show ((-a) * 1000).tdiv b = -((a * 1000).tdiv b)
+      rw [Int.neg_mul, Int.neg_tdiv])
+    (fun a b => Int.add_comm a b)
+    (fun a => by
+      show (if ((-a).tdiv 1000).natAbs < 2 ^ 63 then some (BitVec.ofInt 64 ((-a).tdiv 1000)) else none) =
+        (if (a.tdiv 1000).natAbs < 2 ^ 63 then some (BitVec.ofInt 64 (a.tdiv 1000)) else none).map
+          (fun t => -t)
+      rw [Int.neg_tdiv, Int.natAbs_neg]
+      split
+      · simp [BitVec.ofInt_neg]
+      · rfl)
+
 end RV.Janus
